@@ -89,7 +89,9 @@ size_t vg_a1, vg_a2;
                            (o)->size == __CPROVER_old((o)->size))
 
 /* class pointers are non-const globals (havocked by DFCC): every harness calls this first */
-#define STR_BIND_CLASS()  do { VSTRCLASSVAR = (spif_strclass_t) &s_class; VCLASSVAR = (spif_class_t) &s_class; } while (0)
+/* (it also empties the fgets memo of env_str.h: ghosts are arbitrary at harness entry) */
+#define STR_BIND_CLASS()  do { VSTRCLASSVAR = (spif_strclass_t) &s_class; VCLASSVAR = (spif_class_t) &s_class; \
+                               vg_fgets_buf = (const char *) 0; } while (0)
 #define STR_HAS_CLASS(o)  (SPIF_OBJ_CLASS(o) == (spif_class_t) &s_class)
 
 #define VMIN(a, b) ((a) < (b) ? (a) : (b))
